@@ -106,12 +106,13 @@ def generate(rng, focus, tier="quick"):
         max_pf = rng.randrange(1, 3)
     if wide is None and rng.random() < 0.35:
         # legal but unusual symbols: lower case, dots, a percent sign, blanks inside
-        assets = rng.sample(["EQ:spy", "EQ:Brk.b", "EQ:A%B", "EQ:AAA", "EQ:aaa", "EQ:X Y", "EQ:100%", "EQ:Q"], min(n_assets, 8))
+        assets = rng.sample(["EQ:spy", "EQ:Brk.b", "EQ:A%B", "EQ:AAA", "EQ:aaa", "EQ:X Y", "EQ:100%", "EQ:Q", "EQ:A{1}", "EQ:{x}"], min(n_assets, 8))
     # portfolio ids: usually p1, p2, ... in creation order; sometimes names whose sorted order differs from the
     # order of creation
     pids_run = list(PIDS_DEFAULT)
     if rng.random() < 0.5:
-        pids_run = rng.sample(["b", "a", "p10", "p2", "Z", "m", "p1", "0009", "7", "12", "60%/40%", "x y", "100%_eq", "master", "master"], 6)
+        pids_run = rng.sample(["b", "a", "p10", "p2", "Z", "m", "p1", "0009", "7", "12", "60%/40%", "x y", "100%_eq", "master", "master",
+                               "core{usd}", "{", "a}b{0}", "{0}"], 6)
     r = rng.random()
     if r < 0.3:
         fee = {"kind": "zero"}
@@ -156,7 +157,14 @@ def generate(rng, focus, tier="quick"):
         "int_amounts": rng.random() < 0.2,
         "ctor_positional": rng.random() < 0.25,
         "sym_mode": rng.choice([None] * 8 + ["enum", "np_str"]),
+        "big_int_prices": (("C02" in focus or "C03" in focus) and "C01" not in focus and rng.random() < 0.05),
     }
+    if cfg["big_int_prices"]:
+        # arbitrary-precision arithmetic needs Python numbers throughout: a numpy int64 quantity times such a price
+        # wraps in numpy itself, whatever the library does
+        cfg["np_qty"] = False
+        cfg["int_quotes"] = False
+        cfg["np_quotes"] = False
     if cfg["int_quotes"]:
         cfg["np_quotes"] = False
         cfg["quotes0"] = dict((a, [float(int(q[0]) + 1), float(int(q[0]) + 3)]) for a, q in cfg["quotes0"].items())
@@ -381,7 +389,7 @@ def generate(rng, focus, tier="quick"):
             a = rng.choice(assets)
             emit({"k": "mark", "pid": pid, "asset": a, "price": max(0.01, round(sh["quotes"][a] * math.exp(rng.gauss(0, 0.05)), 4)),
                   "via": rng.choice(["portfolio", "portfolio", "position", "position_dt"])})
-        elif r < (0.955 if "C03" in focus else 0.94):
+        elif r < (0.99 if cfg["big_int_prices"] else (0.955 if "C03" in focus else 0.94)):
             pid = rng.choice(sh["pids"])
             a = rng.choice(assets)
             n = rng.randrange(1, 4)
@@ -491,7 +499,8 @@ def _build(cfg):
     from qstrader.broker.fee_model.zero_fee_model import ZeroFeeModel
     from qstrader.broker.fee_model.percent_fee_model import PercentFeeModel
     s = _Sys()
-    s.qb = QuoteBook(numpy_floats=cfg.get("np_quotes", False), numpy_ints=cfg.get("int_quotes", False))
+    s.qb = QuoteBook(numpy_floats=cfg.get("np_quotes", False), numpy_ints=cfg.get("int_quotes", False),
+                     python_int_scale=(10 ** 13 if cfg.get("big_int_prices") else None))
     s.qb.mid_frac = cfg.get("mid_frac", 0.5)
     for a, (b, k) in sorted(cfg["quotes0"].items()):
         s.qb.set(a, b, k)
@@ -511,15 +520,16 @@ def _build(cfg):
             def __init__(self, fixed, pct):
                 self.fixed, self.pct = fixed, pct
 
-            def _calc_commission(self, asset, quantity, consideration, broker=None):
+            # the fourth parameter carries another name than in the base class: the broker hands it over by position
+            def _calc_commission(self, asset, quantity, consideration, account=None):
                 return self.fixed + self.pct * abs(consideration)
 
-            def _calc_tax(self, asset, quantity, consideration, broker=None):
+            def _calc_tax(self, asset, quantity, consideration, account=None):
                 return 0.0
 
-            def calc_total_cost(self, asset, quantity, consideration, broker=None):
-                return self._calc_commission(asset, quantity, consideration, broker) + \
-                    self._calc_tax(asset, quantity, consideration, broker)
+            def calc_total_cost(self, asset, quantity, consideration, account=None):
+                return self._calc_commission(asset, quantity, consideration, account) + \
+                    self._calc_tax(asset, quantity, consideration, account)
         s.fee = TicketFeeModel(fee["fixed"], fee["c"])
         s.rate = frac(fee["c"])
     else:
@@ -550,11 +560,17 @@ def make_sub_fee(fee):
     # is handed over (as the broker and both order sizers do), a ten times dearer "list price" otherwise.
     if fee["kind"] == "subzero":
         class CommissionOnly(ZeroFeeModel):
+            def __len__(self):
+                return 0                       # "number of per-asset overrides": none - the object is falsy
+
             def _calc_commission(self, asset, quantity, consideration, broker=None):
                 return fee["c"] * abs(consideration) * (1.0 if broker is not None else 10.0)
         return CommissionOnly()
 
     class StampDuty(PercentFeeModel):
+        def __len__(self):
+            return 0                           # "number of per-asset overrides": none - the object is falsy
+
         def _calc_tax(self, asset, quantity, consideration, broker=None):
             return fee["t2"] * abs(consideration) * (1.0 if broker is not None else 10.0)
     return StampDuty(commission_pct=fee["c"], tax_pct=fee["t"])
@@ -1423,7 +1439,14 @@ class Exec(object):
             ctx.fault("transaction_stamped_ahead_of_broker_clock")
         qv = op["qty"]
         qv = int(qv) if float(qv) == int(qv) else float(qv)
-        txn = Transaction(a, qv, tstamp, float(op["price"]), oid, commission=float(op["comm"]))
+        price_ = float(op["price"])
+        if self.cfg.get("big_int_prices") and price_ > 0 and float(qv) == int(qv):
+            # an integer-tick venue quoting in a tiny currency unit: prices as (large) Python ints - exact in Python,
+            # past 2**63 in any fixed-width integer arithmetic once multiplied by a quantity
+            # sized so that one fill is worth 4e18..6e18 currency units: below 2**63 alone, above it in pairs
+            price_ = max(1, int((4e18 + (price_ * 7919.0 % 2.0) * 1e18) // max(1, abs(int(qv)))))
+            ctx.probe("direct_transaction_with_large_python_int_price")
+        txn = Transaction(a, qv, tstamp, price_, oid, commission=float(op["comm"]))
         ok, exc = self._call(s.broker.portfolios[pid].transact_asset, txn)
         ctx.event("pftxn", pid, a, op["qty"], float(op["price"]), float(op["comm"]), ok)
         if not ok:
@@ -1446,8 +1469,9 @@ class Exec(object):
         s, m, ctx = self.s, self.m, self.ctx
         before = snapshot(s)
         try:
+            from qstrader.broker.fee_model.percent_fee_model import PercentFeeModel
             b2 = SimulatedBroker(ts(m.now), s.exchange, s.qb, account_id="other", base_currency=s.ccy,
-                                 initial_funds=op["funds"])
+                                 initial_funds=op["funds"], fee_model=PercentFeeModel(commission_pct=0.013, tax_pct=0.007))
             b2.create_portfolio(op["pid"], "other")
             b2.subscribe_funds_to_portfolio(op["pid"], op["funds"] / 2.0)
             b2.submit_order(op["pid"], Order(ts(m.now), op["asset"], op["qty"]))
